@@ -190,7 +190,7 @@ pub fn cases(ctx: &Ctx) -> Vec<WCase> {
     for i in 0..ctx.n(300, 12_000) {
         let mut rr = r.fork(0x6000_0000 + i as u64);
         let mut s = Scn::base(rr.next());
-        s.peers = rr.pick(&[vec![vec![0, 1]], vec![vec![0], vec![1]]]);
+        s.peers = rr.pick(&[vec![vec![0, 1]], vec![vec![0], vec![1]], vec![vec![0], vec![1]]]);
         s.mp = rr.pick(&[2usize, 8]);
         s.fps = rr.pick(&[60usize, 120]);
         s.frames = 100_000;
@@ -201,8 +201,34 @@ pub fn cases(ctx: &Ctx) -> Vec<WCase> {
         let a = rr.range(1500, 2500);
         // 128 frames take 2.14 s at 60 fps, 1.07 s at 120 fps
         let silent = rr.range(2400, 4300);
-        sp.pauses.push((a, a + silent));
+        if i % 2 == 0 {
+            sp.pauses.push((a, a + silent));
+        } else {
+            // variant: the spectator stays alive but its ACKS never arrive any more and the rest of its packets get through
+            // only in short openings of a flapping link (closed 120 ms, open 20 ms; notify delay 100 ms): the host sees
+            // Interrupted/Resumed cycles, drops the spectator by overflow at some tick, and an opening may follow at once
+            s.notify_ms = 100;
+            let mut l = s.link.clone();
+            l.outages.push(Outage { from_ms: a, to_ms: 1_000_000, kinds: 1 << K_ACK });
+            let mut t = a;
+            while t < a + silent + 3000 {
+                l.outages.push(Outage { from_ms: t, to_ms: t + 120, kinds: 0 });
+                t += 140;
+            }
+            s.link_overrides.push((spec_addr(0), peer_addr(0), l));
+        }
         s.specs.push(sp);
+        // the remote player's inputs arrive in bursts, so that the host's confirmed frame jumps and several frames are
+        // forwarded to the spectator by one advance_frame call
+        if s.peers.len() == 2 {
+            let mut l = s.link.clone();
+            let mut t = 1000;
+            while t < a + silent + 3000 {
+                l.outages.push(Outage { from_ms: t, to_ms: t + 50, kinds: 1 << K_INPUT });
+                t += 170;
+            }
+            s.link_overrides.push((peer_addr(1), peer_addr(0), l));
+        }
         for _ in 0..s.peers.len() {
             s.nodes.push(NodeCfg::default());
         }
@@ -414,8 +440,11 @@ pub fn run_case(c: &WCase) -> Outcome {
             "specoverflow" => {
                 let host = &w.nodes[0];
                 let sa = spec_addr(0);
-                let dropped_early = host.events.iter().any(|(t, e)| matches!(e, Ev::Disconnected { addr } if *addr == sa) && *t < T0 + (w.scn.specs[0].pauses[0].0 + w.scn.timeout_ms) * MS);
-                let came_back = w.net.borrow().last_rx.get(&(sa, host.addr)).is_some_and(|t| *t > T0 + w.scn.specs[0].pauses[0].1 * MS);
+                let dropped_early = host.events.iter().any(|(t, e)| matches!(e, Ev::Disconnected { addr } if *addr == sa) && *t < T0 + (1500 + w.scn.timeout_ms) * MS);
+                let came_back = match w.scn.specs[0].pauses.first() {
+                    Some(p) => w.net.borrow().last_rx.get(&(sa, host.addr)).is_some_and(|t| *t > T0 + p.1 * MS),
+                    None => true,
+                };
                 if dropped_early && came_back {
                     out.count("spectators_dropped_by_overflow_that_came_back", 1);
                 }
